@@ -43,6 +43,8 @@ class Interp(object):
             return len(v) > 0
         if isinstance(v, SBool):
             return v.z
+        if isinstance(v, SStr) and v.nonempty:
+            return True
         if isinstance(v, (SStr, SBytes)):
             return z3.Length(v.z) > 0
         if isinstance(v, SStrList):
@@ -158,6 +160,10 @@ class Interp(object):
                 elems = cont.items
             else:
                 elems = list(cont)
+            if isinstance(item, SStr) and len(elems) > 3 and all(isinstance(e, str) and len(e) == 1 for e in elems):
+                # membership in a set of single characters: one regular-expression class (ranges) instead
+                # of a long disjunction of equalities
+                return z3.InRe(item.z, regex2smt.charset_regex("".join(elems)))
             if isinstance(cont, dict) and isinstance(item, SStr) and B.is_big_str_table(cont):
                 has, _ = B.big_dict_fns(self, cont)
                 return has(item.z)
@@ -552,7 +558,10 @@ class Interp(object):
         if frame.spec_mode:
             # in contract code `assert e` states a proof obligation
             v = self.eval(st.test, frame)
-            self.ctx.oblige("%s/assert@%d" % (frame.fn.qualname if frame.fn else "?", st.lineno), "spec-assert", self.truth(v))
+            if self.ctx.assuming:
+                self.ctx.assume(self.truth(v))       # a callee's clause used as an assumption: its proof discharged this
+            else:
+                self.ctx.oblige("%s/assert@%d" % (frame.fn.qualname if frame.fn else "?", st.lineno), "spec-assert", self.truth(v))
             return
         v = self.eval(st.test, frame)
         if not self.is_true(v):
@@ -819,8 +828,8 @@ class Interp(object):
                 acc.append(t)
                 if i < len(node.values) - 1:
                     a = t if is_and else z3.Not(t)
-                    if ctx.check(a)[0] == "unsat":
-                        break       # the remaining operands cannot matter on this path
+                    # no feasibility pre-check (a solver call per operand): if the assumption is impossible
+                    # here, the first decision under it raises ScopeInfeasible, handled above
                     ta = ctx.temp_assume(a)
                     ta.__enter__()
                     pushed.append(ta)
@@ -896,10 +905,6 @@ class Interp(object):
             return self.eval(node.body if t else node.orelse, frame)
         if frame.spec_mode:
             # try to build an ite term when both arms are scalars of one kind
-            if self.ctx.check(t)[0] == "unsat":
-                return self.eval(node.orelse, frame)
-            if self.ctx.check(z3.Not(t))[0] == "unsat":
-                return self.eval(node.body, frame)
             x = y = NotImplemented
             try:
                 with self.ctx.temp_assume(t):
